@@ -93,8 +93,10 @@ class Relay:
                 s.close()
 
     def down_drop(self, b, c, k):
-        """forward whole frames, silently losing frame number k (a device that skips one reply); the connection stays up"""
+        """forward whole frames, silently losing frame number k (or every frame in the set k): a device that skips replies; the
+        connection stays up"""
         buf, idx = b'', 0
+        lost = k if isinstance(k, (set, frozenset)) else {k}
         try:
             while True:
                 d = b.recv(4096)
@@ -104,7 +106,7 @@ class Relay:
                 while len(buf) >= 24 and len(buf) >= 24 + struct.unpack('<H', buf[2:4])[0]:
                     n = 24 + struct.unpack('<H', buf[2:4])[0]
                     f, buf = buf[:n], buf[n:]
-                    if idx != k:
+                    if idx not in lost:
                         c.sendall(f); self.delivered += n; self.stream += f
                     idx += 1
         except OSError:
@@ -145,7 +147,7 @@ def canon(v):
     return list(v) if hasattr(v, '__iter__') and not isinstance(v, (str, bytes)) else v
 
 
-def use_connector(port, how, multiple=0, tags=None):
+def use_connector(port, how, multiple=0, tags=None, depth=3):
     """-> (results [(status, value)], error name | None)"""
     from cpppo.server.enip import client
     res, err = [], None
@@ -155,7 +157,7 @@ def use_connector(port, how, multiple=0, tags=None):
         ops = list(client.parse_operations(tags or TAGS))
         with conn:
             if how == 'pipeline':
-                gen = conn.pipeline(operations=ops, depth=3, multiple=multiple, timeout=1.0)
+                gen = conn.pipeline(operations=ops, depth=depth, multiple=multiple, timeout=1.0)
             else:
                 gen = conn.operate(ops, depth=0, multiple=multiple, timeout=1.0)
             for idx, dsc, req, rpy, sts, val in gen:
@@ -278,6 +280,24 @@ def run(ctx):
                 if err is None and len(got) != len(expect):
                     bad(w, 'the result stream ended without an error after %d of %d results' % (len(got), len(expect))); continue
                 nnontriv += 1
+        # ---- a run of consecutive replies lost from a deep pipeline: the next reply to arrive belongs to a request ten or more places
+        # on - its sender context ("10") merely begins like the awaited one ("1") - and must not be taken for it
+        many = ['SCADA[%d]' % i for i in range(14)]
+        relay.limit, relay.mode = None, 'cut'
+        expect, err = use_connector(relay.port, 'pipeline', 0, many, depth=14)
+        if err or len(expect) != len(many):
+            raise core.HarnessError('fault-free deep pipeline failed: %r %r' % (err, expect))
+        # frame 0 is the Register Session reply; reply to request i is frame i + 1
+        for lo, hi in ((1, 9), (2, 10), (1, 12), (0, 9), (3, 9)):
+            relay.limit, relay.mode = frozenset(range(lo + 1, hi + 2)), 'drop'
+            got, err = use_connector(relay.port, 'pipeline', 0, many, depth=14)
+            ncut += 1
+            w = dict(api='pipeline', depth=14, operations=many, lost_replies_to_requests=[lo, hi], results=got, error=err, expected=expect)
+            if got != expect[:len(got)]:
+                bad(w, 'after a run of lost replies a yielded result is not the correct result of its own request'); continue
+            if err is None and len(got) != len(expect):
+                bad(w, 'the result stream ended without an error after %d of %d results' % (len(got), len(expect))); continue
+            nnontriv += 1
         # ---- the proxy layer: discard on failure, reconnect on next use
         from cpppo.server.enip.get_attribute import proxy
         tags = ['SCADA[1]', 'D[3]', 'SCADA[50-52]']
